@@ -121,6 +121,10 @@ impl Vm {
       self.fiber_queue.push_back(new_fiber);
       self.current_fun = current_fun;
       self.load_ip();
+    } else {
+      // the callee ran to completion inline (a native or a class without an
+      // initializer), launch is a statement so its result is discarded
+      self.fiber.drop();
     }
 
     ExecutionSignal::Ok
